@@ -146,3 +146,28 @@ package decoder
 //@   loop 1 iter [C14] len(symbols) == old(len(symbols)) + 1
 //@   loop 1 iter [C14] typeis(symbols[len(symbols)-1], "*decoder.ExprSymbol") && as(symbols[len(symbols)-1], "*decoder.ExprSymbol").rng == item.Range()
 //@   loop 2 iter [C14] len(symbols) == old(len(symbols)) || len(symbols) == old(len(symbols)) + 1
+
+// ---- C09: addresses of targets. The context handed to element collectors is a copy whose parent address
+// ---- is its own array; block/attribute addresses are built step by step from what the schema declares.
+//@ contract (*decoder.TargetContext).Copy (tctx) (result)
+//@   ensures [C09] (tctx == nil) == (result == nil)
+//@   ensures [C09] implies(tctx != nil, fresh(result) && fresh(result.ParentAddress) && len(result.ParentAddress) == len(tctx.ParentAddress) && cap(result.ParentAddress) == len(result.ParentAddress))
+//@   ensures [C09] implies(tctx != nil, forall(j, 0, len(tctx.ParentAddress), result.ParentAddress[j] == tctx.ParentAddress[j]))
+//@   ensures [C09] implies(tctx != nil, fresh(result.ParentLocalAddress) && len(result.ParentLocalAddress) == len(tctx.ParentLocalAddress) && freshOrNil(result.TargetableFromRangePtr))
+//@   ensures [C09] implies(tctx != nil, result.FriendlyName == tctx.FriendlyName && result.ScopeId == tctx.ScopeId && result.AsExprType == tctx.AsExprType && result.AsReference == tctx.AsReference)
+//@ contract decoder.resolveBlockAddress (block, blockSchema) (result, ok)
+//@   requires block != nil && blockSchema != nil
+//@   loop 1 invariant [C09] len(address) <= rangeindex + 1 && fresh(address)
+//@   loop 1 iter [C09] implies(len(address) > old(len(address)) && typeis(s, "schema.LabelStep"), stepName == block.Labels[as(s, "schema.LabelStep").Index])
+//@   loop 1 iter [C09] implies(len(address) > old(len(address)) && typeis(s, "schema.StaticStep"), stepName == as(s, "schema.StaticStep").Name)
+//@   loop 1 iter [C09] implies(len(address) > old(len(address)), len(address) == old(len(address)) + 1 && ite(i == 0, typeis(address[len(address)-1], "lang.RootStep") && as(address[len(address)-1], "lang.RootStep").Name == stepName, typeis(address[len(address)-1], "lang.AttrStep") && as(address[len(address)-1], "lang.AttrStep").Name == stepName))
+//@ contract decoder.resolveAttributeAddress (attr, addr) (result, ok)
+//@   requires attr != nil
+//@   loop 1 iter [C09] implies(typeis(s, "schema.AttrNameStep"), stepName == attr.Name)
+//@   loop 1 iter [C09] implies(typeis(s, "schema.StaticStep"), stepName == as(s, "schema.StaticStep").Name)
+//@   loop 1 iter [C09] len(address) == old(len(address)) + 1 && ite(i == 0, typeis(address[len(address)-1], "lang.RootStep") && as(address[len(address)-1], "lang.RootStep").Name == stepName, typeis(address[len(address)-1], "lang.AttrStep") && as(address[len(address)-1], "lang.AttrStep").Name == stepName)
+//@ spec extendsByOne(child lang.Address, parent lang.Address) bool = len(child) == len(parent) + 1 && forall(j, 0, len(parent), child[j] == parent[j])
+//@ contract (decoder.List).ReferenceTargets (list, ctx, targetCtx) (result)
+//@   assert before invoke:ReferenceTargets#2 : [C09] extendsByOne(arg1.ParentAddress, targetCtx.ParentAddress) && typeis(arg1.ParentAddress[len(targetCtx.ParentAddress)], "lang.IndexStep") && as(arg1.ParentAddress[len(targetCtx.ParentAddress)], "lang.IndexStep").Key == cty.NumberIntVal(int64(i))
+//@ contract (decoder.Tuple).ReferenceTargets (tuple, ctx, targetCtx) (result)
+//@   assert before invoke:ReferenceTargets#2 : [C09] extendsByOne(arg1.ParentAddress, targetCtx.ParentAddress) && typeis(arg1.ParentAddress[len(targetCtx.ParentAddress)], "lang.IndexStep") && as(arg1.ParentAddress[len(targetCtx.ParentAddress)], "lang.IndexStep").Key == cty.NumberIntVal(int64(i))
